@@ -390,17 +390,18 @@ def get_string_pattern_with_prefix(prefix, prefix_group_name=None):
 
 
 def get_string_pattern():
-    prefix = r"(?<![fF])(\b(?:[uUbB]?[rR]?|[rR][bB]))?"
+    # a prefix starts a word: the `f` of `if"a"` and the `r` of `or"a"` are none
+    prefix = r"(?<!\b[fF])(?<!\b[rR][fF])(\b(?:[uUbB]?[rR]?|[rR][bB]))?"
     return get_string_pattern_with_prefix(prefix)
 
 
 def get_formatted_string_pattern():
-    prefix = r"(\b[rR]?[fF]|[fF][rR]?)"
+    prefix = r"\b([rR]?[fF]|[fF][rR]?)"
     return get_string_pattern_with_prefix(prefix)
 
 
 def get_any_string_pattern():
-    prefix = r"[bBfFrRuU]{,4}"
+    prefix = r"(?:\b[bBfFrRuU]{1,4})?"
     return get_string_pattern_with_prefix(
         prefix,
         prefix_group_name="prefix",
